@@ -74,7 +74,14 @@ multi-allocatable).  The property, on these entries:
     plus the same worst case of the units the counter-consuming devices allocated in this pass take, ≤ the counter
     (likewise the capacity of a multi-allocatable device that is partly consumed in the cluster already);
   * every claim got the number of devices it asked for, of the class it asked for, for every instance type it is
-    allocated for, and a capacity request is accounted in full. -/
+    allocated for, and a capacity request is accounted in full.
+
+What an allocation consumes of a multi-allocatable device is NOT taken from what the implementation reports: it follows
+from the device's capacity dimensions, their request policies and the claim's capacity requests by the rules of
+resource.k8s.io/v1 (`CapacityRequestPolicy`, `CapacityRequestPolicyRange`): EVERY dimension of the device is consumed —
+a dimension the request has no entry for at `requestPolicy.default`, without a default in full; a requested amount is
+rounded up to the next valid value / to `min` / to the next `min + n·step`; an amount beyond all valid values or beyond
+`max` cannot be allocated from this device at all; nor can a request that names a dimension the device does not have. -/
 
 structure Entry where
   claim : String
@@ -84,26 +91,103 @@ structure Entry where
   pool : String
   cls : String          -- gpu | tmpl | shared | part, from the driver of the device
   template : Bool
-  consumed : Int
+  consumed : List (String × Int)   -- capacity dimension ↦ what the implementation reports as consumed (absent = 0)
 deriving Repr
 
 structure ClaimSpec where
   name : String
   cls : String
   count : Nat
-  cap : Int
+  reqs : List (String × Int)       -- capacity dimension ↦ requested amount (class shared; no entry = not requested)
 deriving Repr
 
 def sumInt (l : List Int) : Int := l.foldl (· + ·) 0
 def maxInt0 (l : List Int) : Int := l.foldl max 0
 
-/-- worst-case consumption of shared device `d`: Σ over NodeClaims of the max over instance types -/
-def worstCase (entries : List Entry) (d : String) : Int :=
-  let es := entries.filter (fun e => e.cls == "shared" && e.dev == d)
+/-- one capacity dimension of a multi-allocatable device: its capacity, what allocations in the cluster consume already
+    and its request policy (`default`; `validValues`; `validRange` = (min, max?, step?)) -/
+structure SDim where
+  dim : String
+  cap : Int
+  pre : Int
+  default : Option Int := none
+  values : List Int := []
+  range : Option (Int × Option Int × Option Int) := none
+deriving Repr
+
+structure SDev where
+  name : String
+  dims : List SDim
+deriving Repr
+
+/-- the least of the values that are at least `r` -/
+def leastAbove (r : Int) (vs : List Int) : Option Int :=
+  match vs.filter (fun v => r ≤ v) with
+  | [] => none
+  | v :: rest => some (rest.foldl min v)
+
+/-- what a request consumes of one dimension (`req` = the amount it asks for, `none` = no entry for the dimension);
+    `none` = the device cannot be allocated for this request (resource.k8s.io/v1 CapacityRequestPolicy) -/
+def SDim.consumption (d : SDim) : Option Int → Option Int
+  | none => some (d.default.getD d.cap)
+  | some r =>
+    if !d.values.isEmpty then leastAbove r d.values
+    else match d.range with
+      | none => some r
+      | some (mn, mx, st) =>
+        -- below min: min; with a step: what the amount is over the grid min + n·step is filled up to a whole step
+        let c := if r < mn then mn else
+          match st with
+          | none => r
+          | some s => if (r - mn) % s == 0 then r else r + (s - (r - mn) % s)
+        match mx with
+        | none => some c
+        | some m => if c > m then none else some c
+
+/-- what claim `c` consumes of dimension `d` of a device it is allocated; `none` = not allocatable -/
+def claimConsumes (c : ClaimSpec) (d : SDim) : Option Int := d.consumption (c.reqs.lookup d.dim)
+
+/-- what the entry consumes of the dimension by the rules; where the rules say the device cannot be allocated at all (or
+    the claim is unknown) what the implementation reports is taken (that entry is a violation of its own) -/
+def entryConsumes (claims : List ClaimSpec) (d : SDim) (e : Entry) : Int :=
+  match (claims.find? (·.name == e.claim)).bind (fun c => claimConsumes c d) with
+  | some v => v
+  | none => (e.consumed.lookup d.dim).getD 0
+
+/-- worst-case consumption of dimension `d` of shared device `dev`: Σ over NodeClaims of the max over instance types -/
+def worstCase (claims : List ClaimSpec) (entries : List Entry) (dev : String) (d : SDim) : Int :=
+  let es := entries.filter (fun e => e.cls == "shared" && e.dev == dev)
   let ncs := (es.map (·.nc)).eraseDups
   sumInt (ncs.map (fun nc =>
     let its := ((es.filter (·.nc == nc)).map (·.it)).eraseDups
-    maxInt0 (its.map (fun it => sumInt ((es.filter (fun e => e.nc == nc && e.it == it)).map (·.consumed))))))
+    maxInt0 (its.map (fun it => sumInt ((es.filter (fun e => e.nc == nc && e.it == it)).map (entryConsumes claims d))))))
+
+/-- no dimension of a multi-allocatable device is over-consumed (a device from which the pass hands out nothing is not
+    judged) -/
+def capacityOK (shared : List SDev) (claims : List ClaimSpec) (entries : List Entry) : Option String :=
+  shared.findSome? (fun sd => sd.dims.findSome? (fun d =>
+    let w := worstCase claims entries sd.name d
+    if w > 0 && d.pre + w > d.cap then
+      some s!"multi-allocatable device {sd.name}: {d.pre} of {d.dim} consumed in the cluster already + worst-case consumption {w} of this pass exceeds its capacity {d.cap}"
+    else none))
+
+/-- a claim's share of a multi-allocatable device is what the rules say: it may be allocated at all, and every dimension
+    of the device is accounted with exactly the amount the rules give -/
+def shareOK (shared : List SDev) (c : ClaimSpec) (e : Entry) : Option String :=
+  match shared.find? (·.name == e.dev) with
+  | none => some s!"claim {c.name} got multi-allocatable device {e.dev}, which no published slice offers"
+  | some sd =>
+    match c.reqs.find? (fun r => !sd.dims.any (·.dim == r.1)) with
+    | some r => some s!"claim {c.name} requests capacity {r.1}, which device {e.dev} does not have, yet it got that device"
+    | none =>
+      sd.dims.findSome? (fun d =>
+        let got := (e.consumed.lookup d.dim).getD 0
+        match claimConsumes c d with
+        | none => some s!"claim {c.name} cannot be satisfied by {e.dev}: its request for {d.dim} violates the device's request policy, yet it got that device"
+        | some want =>
+          if got != want then
+            some s!"claim {c.name} consumes {want} of {d.dim} of {e.dev} (request {c.reqs.lookup d.dim}, default {d.default}, capacity {d.cap}) but {got} is accounted"
+          else none)
 
 /-- a pool of counter-consuming devices (partitions of a partitionable device): the shared counter it declares and, per
     device, the units it consumes and whether it is already allocated in the cluster.  How the pool's slices are
@@ -165,8 +249,8 @@ def templateCountersOK (tpools : List TPool) (entries : List Entry) : Option Str
         some s!"template counter of instance type {e.it} over-consumed for NodeClaim {e.nc}: the template partitions allocated there consume {used}, the counter is {tp.slots}"
       else none)
 
-/-- `shared`: multi-allocatable device ↦ (capacity, capacity already consumed in the cluster) -/
-def metaOK (prealloc : List String) (shared : List (String × Int × Int)) (pools : List CPool) (tpools : List TPool)
+/-- `shared`: the multi-allocatable devices (capacity dimensions, what is consumed in the cluster already, policies) -/
+def metaOK (prealloc : List String) (shared : List SDev) (pools : List CPool) (tpools : List TPool)
     (claims : List ClaimSpec) (entries : List Entry) : Option String :=
   let excl := entries.filter (fun e => e.cls == "gpu" || e.cls == "part")
   let tmpl := entries.filter (fun e => e.cls == "tmpl" || e.cls == "tpart")
@@ -181,8 +265,8 @@ def metaOK (prealloc : List String) (shared : List (String × Int × Int)) (pool
   let tTriples := tmpl.map (fun e => (e.dev, e.nc, e.it))
   if tTriples.eraseDups.length != tTriples.length then some "a template device is assigned twice for one (NodeClaim, instance type)" else
   if entries.any (fun e => (e.cls == "tmpl" || e.cls == "tpart") != e.template) then some "a template flag does not match the device's origin" else
-  match shared.find? (fun (d, c, pre) => worstCase entries d > 0 && pre + worstCase entries d > c) with
-  | some (d, c, pre) => some s!"multi-allocatable device {d}: {pre} consumed in the cluster already + worst-case consumption {worstCase entries d} of this pass exceeds its capacity {c}"
+  match capacityOK shared claims entries with
+  | some w => some w
   | none =>
   match countersOK pools entries with
   | some w => some w
@@ -197,9 +281,10 @@ def metaOK (prealloc : List String) (shared : List (String × Int × Int)) (pool
       let mine := entries.filter (fun g => g.claim == e.claim && g.it == e.it)
       if e.cls != c.cls then some s!"claim {c.name} asked for class {c.cls} and got device {e.dev} of class {e.cls}"
       else if mine.length != c.count then some s!"claim {c.name} asked for {c.count} device(s) and got {mine.length} for instance type {e.it}"
-      else if ((mine.map (·.dev)).eraseDups.length != mine.length) then some s!"claim {c.name} got the same device twice for instance type {e.it}"
+      -- (a multi-allocatable device may serve several slots of one request: each is a share of its own, all are summed)
+      else if c.cls != "shared" && ((mine.map (·.dev)).eraseDups.length != mine.length) then some s!"claim {c.name} got the same device twice for instance type {e.it}"
       else if mine.any (fun g => g.nc != e.nc) then some s!"claim {c.name} is allocated for two NodeClaims"
-      else if c.cls == "shared" && e.consumed < c.cap then some s!"claim {c.name} asked for capacity {c.cap} of {e.dev} but only {e.consumed} is accounted"
+      else if c.cls == "shared" then shareOK shared c e
       else none)
 
 /-! ### Completeness in a whole pass: a placed pod's claims are allocated for every launch option of its NodeClaim -/
